@@ -493,6 +493,13 @@ type c17RealCase struct {
 	Second    bool          `json:"second"`    // start a second session after the first one stopped
 	StaleAdd  bool          `json:"staleadd"`  // replay an AddBlockRsp of session 1 into session 2
 	TimeoutMs int           `json:"timeoutms"`
+	// HashFetcher response timer (package var dfltTimeout) and a slow answer to the K-th GetHashes request:
+	// HashMode "hold": the answer enters the mailbox directly in front of the HashFetcher's timeout SyncStop;
+	// "after": directly behind it; "delay": answered HashDelayMs after the request
+	HfTimeoutMs int    `json:"hftimeoutms"`
+	HashK       int    `json:"hashk"`
+	HashMode    string `json:"hashmode"`
+	HashDelayMs int    `json:"hashdelayms"`
 }
 
 type c17Add struct {
@@ -503,6 +510,7 @@ type c17Add struct {
 }
 
 type c17Session struct {
+	Clean    string   `json:"clean"` // "" or what was left behind after the session ended
 	Started  bool     `json:"started"`
 	Ancestor int64    `json:"ancestor"` // FinderResult ancestor height, -1 none
 	AncOnLocal  bool  `json:"anc_on_local"`
@@ -536,6 +544,9 @@ func c17RunSession(t *testing.T, c *c17RealCase, local, served *chain.StubBlockC
 	quit := make(chan struct{})
 	hubDone := make(chan struct{})
 	injected := false
+	hashReqs := 0
+	slow := c.HashK > 0 && stale == nil && !c17SecondSession
+	var heldRsp *message.GetHashesRsp
 	handle := func(msg interface{}) {
 		switch m := msg.(type) {
 		case *message.SyncStart:
@@ -585,7 +596,25 @@ func c17RunSession(t *testing.T, c *c17RealCase, local, served *chain.StubBlockC
 			mu.Lock()
 			ses.Stops++
 			mu.Unlock()
-			ss.realSyncer.handleMessage(msg)
+			// Syncer.Receive drops everything but SyncStart while no session is running
+			deliver := func(x interface{}) {
+				if ss.realSyncer.isRunning {
+					ss.realSyncer.handleMessage(x)
+				}
+			}
+			if heldRsp != nil && m.Err == ErrHashFetcherTimeout {
+				r := heldRsp
+				heldRsp = nil
+				if c.HashMode == "hold" {
+					deliver(r) // mailbox order: late response, then the timeout stop
+					deliver(msg)
+				} else {
+					deliver(msg)
+					deliver(r)
+				}
+			} else {
+				deliver(msg)
+			}
 		default:
 			if isOtherActorRequest(msg) {
 				if ga, ok := msg.(*message.GetSyncAncestor); ok && c.LieAnc != -1 {
@@ -597,7 +626,21 @@ func c17RunSession(t *testing.T, c *c17RealCase, local, served *chain.StubBlockC
 				} else if gh, ok := msg.(*message.GetHashes); ok {
 					// StubSyncer.GetHashes asserts; answer without asserting
 					hashes, herr := served.GetHashes(gh.PrevInfo, gh.Count)
-					ss.stubRequester.TellTo(message.SyncerSvc, &message.GetHashesRsp{Seq: gh.Seq, PrevInfo: gh.PrevInfo, Hashes: hashes, Count: uint64(len(hashes)), Err: herr})
+					rsp := &message.GetHashesRsp{Seq: gh.Seq, PrevInfo: gh.PrevInfo, Hashes: hashes, Count: uint64(len(hashes)), Err: herr}
+					hashReqs++
+					if slow && hashReqs == c.HashK {
+						switch c.HashMode {
+						case "hold", "after":
+							heldRsp = rsp // delivered next to the HashFetcher's timeout stop
+						case "delay":
+							go func() {
+								time.Sleep(time.Duration(c.HashDelayMs) * time.Millisecond)
+								ss.stubRequester.TellTo(message.SyncerSvc, rsp)
+							}()
+						}
+						return
+					}
+					ss.stubRequester.TellTo(message.SyncerSvc, rsp)
 				} else {
 					ss.handleActorMsg(msg)
 				}
@@ -634,7 +677,21 @@ func c17RunSession(t *testing.T, c *c17RealCase, local, served *chain.StubBlockC
 		c17Hangs++
 	}
 	close(quit)
-	<-hubDone
+	if stop != "hang" {
+		<-hubDone // (a hub stuck inside Syncer.Reset never comes back)
+		// the session end is clean: nothing of the session is left behind
+		rs := ss.realSyncer
+		switch {
+		case stop != "not-started" && rs.isRunning:
+			ses.Clean = "syncer still marked running"
+		case rs.finder != nil || rs.hashFetcher != nil || rs.blockFetcher != nil:
+			ses.Clean = "a component of the ended session is still attached"
+		case rs.ctx != nil:
+			ses.Clean = "sync context not cleared"
+		}
+	} else {
+		ses.Clean = "Reset did not return / no final notification within the watchdog"
+	}
 	mu.Lock()
 	defer mu.Unlock()
 	ses.Stop = stop
@@ -643,6 +700,8 @@ func c17RunSession(t *testing.T, c *c17RealCase, local, served *chain.StubBlockC
 }
 
 const c17Watchdog = 15 * time.Second
+
+var c17SecondSession bool
 
 var c17Hangs int // after a few sessions that never ended the remaining cases are skipped
 
@@ -761,7 +820,14 @@ func TestVerifC17Real(t *testing.T) {
 			fmt.Fprintln(w, string(b))
 			continue
 		}
+		if c.HfTimeoutMs > 0 {
+			dfltTimeout = time.Duration(c.HfTimeoutMs) * time.Millisecond
+		} else {
+			dfltTimeout = 180 * time.Second
+		}
+		c17SecondSession = false
 		obs.S1, last = c17RunSessionHub(t, &c, local, served, peers, c.Target, nil)
+		c17SecondSession = true
 		if c.Second {
 			var stale *message.AddBlockRsp
 			if c.StaleAdd {
